@@ -790,7 +790,7 @@ class Obs:
         else:
             if isinstance(y, np.ndarray):
                 return np.array([self + o for o in y])
-            elif isinstance(y, complex):
+            elif isinstance(y, (complex, np.complexfloating)):
                 return CObs(self, 0) + y
             elif y.__class__.__name__ in ['Corr', 'CObs']:
                 return NotImplemented
@@ -806,7 +806,7 @@ class Obs:
         else:
             if isinstance(y, np.ndarray):
                 return np.array([self * o for o in y])
-            elif isinstance(y, complex):
+            elif isinstance(y, (complex, np.complexfloating)):
                 return CObs(self * y.real, self * y.imag)
             elif y.__class__.__name__ in ['Corr', 'CObs']:
                 return NotImplemented
@@ -822,7 +822,7 @@ class Obs:
         else:
             if isinstance(y, np.ndarray):
                 return np.array([self - o for o in y])
-            elif isinstance(y, complex):
+            elif isinstance(y, (complex, np.complexfloating)):
                 return CObs(self, 0) - y
             elif y.__class__.__name__ in ['Corr', 'CObs']:
                 return NotImplemented
@@ -844,7 +844,7 @@ class Obs:
         else:
             if isinstance(y, np.ndarray):
                 return np.array([self / o for o in y])
-            elif isinstance(y, complex):
+            elif isinstance(y, (complex, np.complexfloating)):
                 return CObs(self, 0) / y
             elif y.__class__.__name__ in ['Corr', 'CObs']:
                 return NotImplemented
@@ -857,7 +857,7 @@ class Obs:
         else:
             if isinstance(y, np.ndarray):
                 return np.array([o / self for o in y])
-            elif isinstance(y, complex):
+            elif isinstance(y, (complex, np.complexfloating)):
                 return CObs(y.real / self, y.imag / self)
             elif y.__class__.__name__ in ['Corr', 'CObs']:
                 return NotImplemented
@@ -867,7 +867,7 @@ class Obs:
     def __pow__(self, y):
         if isinstance(y, Obs):
             return derived_observable(lambda x, **kwargs: x[0] ** x[1], [self, y], man_grad=[y.value * self.value ** (y.value - 1), self.value ** y.value * np.log(self.value)])
-        elif isinstance(y, complex):
+        elif isinstance(y, (complex, np.complexfloating)):
             modulus = self ** y.real
             phase = y.imag * np.log(self)
             return CObs(modulus * np.cos(phase), modulus * np.sin(phase))
@@ -875,7 +875,7 @@ class Obs:
             return derived_observable(lambda x, **kwargs: x[0] ** y, [self], man_grad=[y * self.value ** (y - 1)])
 
     def __rpow__(self, y):
-        if isinstance(y, complex):
+        if isinstance(y, (complex, np.complexfloating)):
             log_y = np.log(y)
             modulus = np.exp(log_y.real * self)
             phase = log_y.imag * self
